@@ -173,3 +173,221 @@ def renumber_cancels(threads):
                 op["op"] = "sleep"
                 op["d"] = 0.001
                 op.pop("fut", None)
+
+
+# ---------------------------------------------------------------------------
+def _number(threads):
+    """Assign explicit ids so that generators can refer to futures."""
+    for ti, ops in enumerate(threads):
+        for i, op in enumerate(ops):
+            op.setdefault("id", "t%d.%d" % (ti, i + 1))
+    return threads
+
+
+def g_crash(rng):
+    """C02: a pool that will suffer an abrupt worker death somewhere."""
+    kind = "reusable" if rng.random() < 0.4 else "plain"
+    kw = {"max_workers": rng.randint(1, 5), "timeout": rng.choice([None, 0.2, 10]) if kind == "plain" else rng.choice([0.2, 10])}
+    if rng.random() < 0.25:
+        kw["initializer"] = {"token": "tok"}
+    n = rng.randint(4, 20)
+    ops = [{"op": "new", "ex": "e", "kind": kind, "kw": kw}]
+    for i in range(n):
+        r = rng.random()
+        if r < 0.5:
+            ops.append({"op": "submit", "ex": "e", "task": t_ok(rng)})
+        elif r < 0.8:
+            ops.append({"op": "submit", "ex": "e", "task": {"k": "sleep", "d": 0.05}})
+        elif r < 0.9:
+            ops.append({"op": "submit", "ex": "e", "task": t_raise(rng)})
+        else:
+            ops.append({"op": "sleep", "d": rng.choice([0.001, 0.02, 0.1])})
+    inline = rng.random()
+    if inline < 0.35:
+        # the death comes from a task / chaos kill instead of (or in addition to) the injector
+        pos = rng.randint(1, len(ops))
+        if rng.random() < 0.6:
+            ops.insert(pos, {"op": "submit", "ex": "e", "task": t_breaking(rng)})
+        else:
+            ops.insert(pos, {"op": "kill", "ex": "e", "which": rng.randint(0, 4), "sig": rng.choice(["SIGKILL", "SIGTERM", "SIGSEGV"])})
+    ops += [
+        {"op": "wait", "futs": "all"},
+        {"op": "submit", "ex": "e", "task": t_ok(rng), "after": True},
+        {"op": "wait", "futs": "all"},
+        {"op": "shutdown", "ex": "e", "wait": True},
+    ]
+    prog = {"threads": _number([ops]), "end": "return"}
+    return prog, {"gen": "g_crash", "kind": kind, "kw": kw, "inline_death": inline < 0.35}
+
+
+def g_route(rng):
+    """C03: routing, at-most-once, map; time-outs, respawns and resizes in the history."""
+    kind = "reusable" if rng.random() < 0.6 else "plain"
+    kw = {"max_workers": rng.randint(1, 4), "timeout": rng.choice([None, 10, 0.05, 0.02, 0.005]) if kind == "plain" else rng.choice([10, 0.05, 0.02, 0.005])}
+    nthreads = rng.choice([1, 2, 3, 4])
+    threads = []
+    for ti in range(nthreads):
+        ops = []
+        for i in range(rng.randint(6, 40)):
+            r = rng.random()
+            if r < 0.62:
+                ops.append({"op": "submit", "ex": "e", "task": t_ok(rng) if rng.random() < 0.8 else t_sleep(rng, 0.001, 0.02)})
+            elif r < 0.74:
+                ops.append({"op": "cancel", "fut": "__recent__"})
+            elif r < 0.84:
+                n_it = rng.choice([1, 1, 2, 3])
+                base = rng.randint(0, 10**6)
+                iters = [[base + 1000 * j + x for x in range(rng.choice([0, 1, 2, 5, 9, 17]))] for j in range(n_it)]
+                L = min(len(x) for x in iters) if iters else 0
+                ops.append({"op": "map", "ex": "e", "iters": iters, "chunksize": rng.choice([1, 2, 3, 7, max(1, L), L + 5])})
+            elif r < 0.92:
+                ops.append({"op": "sleep", "d": rng.choice([0.001, 0.03, 0.08])})
+            elif kind == "reusable" and ti == 0:
+                ops.append({"op": "get_reusable", "ex": "e", "kw": dict(kw, max_workers=rng.randint(1, 4))})
+            else:
+                ops.append({"op": "submit", "ex": "e", "task": t_ok(rng)})
+        threads.append(ops)
+    threads[0].insert(0, {"op": "new", "ex": "e", "kind": kind, "kw": kw})
+    prog = {"threads": threads, "end": "return",
+            "tail": [{"op": "wait", "futs": "all"}, {"op": "quiesce", "ex": ["e"]}, {"op": "shutdown", "ex": "e", "wait": True}]}
+    if nthreads > 1:
+        prog["barriers"] = {"start": nthreads}
+        for ti, ops in enumerate(threads):
+            ops.insert(1 if ti == 0 else 0, {"op": "barrier", "name": "start"})
+    renumber_cancels(threads)
+    return prog, {"gen": "g_route", "kind": kind, "kw": kw, "nthreads": nthreads}
+
+
+def g_contain(rng):
+    """C04: task-level failures among good tasks, incl. a full call queue."""
+    kind = "reusable" if rng.random() < 0.4 else "plain"
+    mw = rng.randint(1, 4)
+    kw = {"max_workers": mw, "timeout": rng.choice([None, 10]) if kind == "plain" else 10}
+    n_good = rng.randint(5, 40)
+    n_bad = rng.randint(1, 6)
+    flood = rng.random() < 0.3
+    tasks = [("good", t_ok(rng) if rng.random() < 0.7 else t_sleep(rng, 0.005, 0.03)) for _ in range(n_good)]
+    bads = []
+    for _ in range(n_bad):
+        r = rng.random()
+        if r < 0.35:
+            bads.append(t_raise(rng))
+        elif r < 0.6:
+            bads.append(t_bad_arg_pickle(rng))
+        elif r < 0.8:
+            bads.append(t_bad_result_pickle(rng))
+        else:
+            bads.append(t_slow_pickle(rng, 0.05))
+    if flood:
+        # more unsendable tasks in a row than the call queue has slots: a leaked slot would exhaust it
+        slots = (2 * mw + 1) if kind == "plain" else 33
+        bads += [t_bad_arg_pickle(rng) for _ in range(slots + 3)]
+    for b in bads:
+        tasks.insert(rng.randint(0, len(tasks)), ("bad", b))
+    ops = [{"op": "new", "ex": "e", "kind": kind, "kw": kw}]
+    for cls, t in tasks:
+        ops.append({"op": "submit", "ex": "e", "task": t, "raising_cb": rng.random() < 0.08})
+        if rng.random() < 0.05:
+            ops.append({"op": "sleep", "d": 0.01})
+    ops += [
+        {"op": "wait", "futs": "all"},
+        {"op": "quiesce", "ex": ["e"]},
+        {"op": "submit", "ex": "e", "task": {"k": "ok", "x": 7, "fresh": True}, "fresh": True},
+        {"op": "wait", "futs": "all"},
+        {"op": "quiesce", "ex": ["e"]},
+    ]
+    if rng.random() < 0.5:
+        ops.append({"op": "shutdown", "ex": "e", "wait": True})
+    prog = {"threads": [ops], "end": "return"}
+    return prog, {"gen": "g_contain", "kind": kind, "kw": kw, "flood": flood, "n_bad": len(bads)}
+
+
+def g_drain(rng):
+    """C05: graceful shutdown requested at every program position, in every way."""
+    kind = "reusable" if rng.random() < 0.35 else "plain"
+    mw = rng.randint(1, 4)
+    tmo = rng.choice([None, 0.2, 0.02]) if kind == "plain" else rng.choice([10, 0.2, 0.02])
+    kw = {"max_workers": mw, "timeout": tmo}
+    n = rng.randint(3, 30)
+    slow = rng.random() < 0.25
+    ops = [{"op": "new", "ex": "e", "kind": kind, "kw": kw}]
+    subs = []
+    for i in range(n):
+        r = rng.random()
+        if slow and r < 0.3:
+            t = t_slow_pickle(rng, rng.choice([0.03, 0.1]))
+        elif r < 0.55:
+            t = t_ok(rng)
+        elif r < 0.85:
+            t = t_sleep(rng, 0.005, 0.06)
+        else:
+            t = t_raise(rng)
+        subs.append({"op": "submit", "ex": "e", "task": t})
+    position = rng.choice(["immediately", "mid", "after_done", "long_after"])
+    how = rng.choice(["shutdown_wait", "shutdown_nowait", "with", "del", "exit", "other_thread"])
+    if kind == "reusable" and how == "del":
+        how = "exit"  # the module-level singleton keeps a reusable executor alive: del alone requests nothing
+    pre = list(subs)
+    if position == "after_done":
+        pre.append({"op": "wait", "futs": "all"})
+    elif position == "long_after":
+        pre += [{"op": "wait", "futs": "all"}, {"op": "sleep", "d": (3 * tmo if tmo and tmo < 1 else 0.05)}]
+    elif position == "mid":
+        pre.insert(rng.randint(0, len(pre)), {"op": "sleep", "d": rng.choice([0.005, 0.03])})
+    post_submit = {"op": "submit", "ex": "e", "task": {"k": "ok", "x": 0}, "post_shutdown": True}
+    threads = [ops]
+    tail = []
+    barriers = {}
+    if how == "shutdown_wait":
+        ops += pre + [{"op": "shutdown", "ex": "e", "wait": True}, post_submit, {"op": "census", "after_shutdown": True, "grace": 5.0}]
+    elif how == "shutdown_nowait":
+        ops += pre + [{"op": "shutdown", "ex": "e", "wait": False}, post_submit, {"op": "join_mgr", "ex": "e"}, {"op": "census", "after_shutdown": True, "grace": 5.0}]
+    elif how == "with":
+        ops += [{"op": "with", "ex": "e", "body": pre}, post_submit, {"op": "census", "after_shutdown": True, "grace": 5.0}]
+    elif how == "del":
+        ops += pre + [{"op": "del", "ex": "e"}, {"op": "join_mgr", "ex": "e"}, {"op": "census", "after_shutdown": True, "grace": 5.0}]
+    elif how == "exit":
+        ops += pre
+    else:
+        # the shutdown comes from a second thread while the first is still submitting
+        ops += [{"op": "barrier", "name": "b"}] + pre
+        threads.append([{"op": "barrier", "name": "b"}, {"op": "sleep", "d": rng.choice([0.0, 0.002, 0.02])}, {"op": "shutdown", "ex": "e", "wait": True}])
+        barriers = {"b": 2}
+        tail = [{"op": "wait", "futs": "all"}, {"op": "join_mgr", "ex": "e"}, {"op": "census", "after_shutdown": True, "grace": 5.0}]
+    prog = {"threads": threads, "end": "return", "tail": tail}
+    if barriers:
+        prog["barriers"] = barriers
+    return prog, {"gen": "g_drain", "kind": kind, "kw": kw, "position": position, "how": how, "slow_pickle": slow}
+
+
+def g_idle(rng):
+    """C07: bursts separated by pauses around the idle timeout; resizes and shutdown in the same history."""
+    kind = "reusable" if rng.random() < 0.6 else "plain"
+    tmo = rng.choice([0.5, 0.1, 0.02, 0.005, 0.001])
+    mw = rng.randint(1, 6)
+    kw = {"max_workers": mw, "timeout": tmo}
+    if rng.random() < 0.15:
+        kw["initializer"] = {"token": "leak", "leak0": True}
+    ops = [{"op": "new", "ex": "e", "kind": kind, "kw": kw}]
+    for b in range(rng.randint(2, 5)):
+        for i in range(rng.randint(1, 3 * mw)):
+            r = rng.random()
+            if r < 0.6:
+                ops.append({"op": "submit", "ex": "e", "task": t_ok(rng)})
+            elif r < 0.85:
+                ops.append({"op": "submit", "ex": "e", "task": t_sleep(rng, 0.002, min(0.05, 3 * tmo + 0.004))})
+            else:
+                ops.append({"op": "submit", "ex": "e", "task": t_slow_pickle(rng, min(0.1, 2 * tmo + 0.01))})
+        if rng.random() < 0.6:
+            ops.append({"op": "wait", "futs": "all"})
+        ops.append({"op": "sleep", "d": round(min(1.2, tmo * rng.choice([0.5, 1.0, 1.5, 3.0])), 4)})
+        if kind == "reusable" and rng.random() < 0.3:
+            ops.append({"op": "get_reusable", "ex": "e", "kw": dict(kw, max_workers=rng.randint(1, 6))})
+    ops += [{"op": "wait", "futs": "all"}, {"op": "quiesce", "ex": ["e"]}]
+    ending = rng.choice(["shutdown", "exit", "shutdown", "nowait"])
+    if ending == "shutdown":
+        ops.append({"op": "shutdown", "ex": "e", "wait": True})
+    elif ending == "nowait":
+        ops += [{"op": "shutdown", "ex": "e", "wait": False}, {"op": "join_mgr", "ex": "e"}]
+    prog = {"threads": [ops], "end": "return"}
+    return prog, {"gen": "g_idle", "kind": kind, "kw": kw, "ending": ending}
